@@ -159,6 +159,8 @@ def run_instance(spec):
             funcs |= ft.names
         first = False
         res["paths"] += 1
+        if core.TRACE and res["paths"] % 100 == 0:
+            sys.stderr.write("SYMX %s: %d paths, %d obligations, %.0fs, q=%d\n" % (spec["func"], res["paths"], res["obligations"], time.time() - t0, core.STATS["queries"]))
         if status == "infeasible":
             res["infeasible"] += 1
         elif status == "abort":
